@@ -236,9 +236,12 @@ def drain(spec):
 
 def run(ctx):
     consts = gen_c10.generate()
+    K.set_consts(consts)
     ctx.notes.append('generated constants: %r' % consts)
     if not ctx.coq():
         ctx.broken_proof()
+    elif ctx.thorough:
+        K.coqchk(ctx, 'C11')
     ev = Evaluator(ctx)
     rng = ctx.rng
     cases = []
@@ -323,7 +326,7 @@ def run(ctx):
 def replay(ctx, rec):
     case = rec.get('case', rec)
     case = case.get('case', case)
-    gen_c10.generate()
+    K.set_consts(gen_c10.generate())
     ev = Evaluator(ctx)
     c = dict(case, id='replay', origin='replay')
     r = ev.run([c], 'replay', with_legacy=True)[c['id']]
